@@ -1472,8 +1472,8 @@ func init() {
 	})
 	addDoc("C06", "R06q no operand of a string comparison in the csv / fixed-length packages derives from a case-folding or white-space-normalising function other than strings.TrimSpace (a header that differs inside a column name is rejected).")
 	control(Control{ID: "c06-header-compare-folded", Prop: "C06", File: "extensions/omniv21/fileformat/csv/reader.go",
-		Old:  "strings.TrimSpace(header[i]) != strings.TrimSpace(column.Name)",
-		New:  "strings.ToLower(strings.TrimSpace(header[i])) != strings.ToLower(strings.TrimSpace(column.Name))",
+		Old:  "if strings.TrimSpace(header[index]) != strings.TrimSpace(column.Name) {",
+		New:  "if strings.ToLower(strings.TrimSpace(header[index])) != strings.ToLower(strings.TrimSpace(column.Name)) {",
 		Rule: "R06q", Substr: "normalised by strings.ToLower", Why: "header names that differ in case are accepted"})
 
 	wrapRun("C16", func(c *core.Ctx) {
